@@ -552,6 +552,12 @@ fn c14_backend<F: Function + MathFunction + Clone>(
         }
         rep.count("fault.missing_var", 1);
         let want = c.vars[miss].index().unwrap();
+        let nmiss = *[1usize, 0, 1, 3, 9, 0]
+            .get(ch(&mut |c| c.choose("missing_batch_len", 6)) as usize)
+            .unwrap();
+        if nmiss == 0 {
+            rep.count("op.missing_var_with_empty_batch", 1);
+        }
         let r = rt::catch(|| {
             let p = pts[0];
             let pe = &mut evs.pe;
@@ -572,19 +578,40 @@ fn c14_backend<F: Function + MathFunction + Clone>(
                 _ => false,
             };
             let fe = &mut evs.fe;
+            // the batch length is drawn, an empty batch included (added after
+            // seeded change C14-v): a missing variable is an error whatever
+            // the number of samples
+            let xs = vec![p[0]; nmiss];
+            let ys = vec![p[1]; nmiss];
+            let zs = vec![p[2]; nmiss];
             let cc = match fe.eval_raw(
                 &shape.ez_float_slice_tape(),
-                &[p[0]],
-                &[p[1]],
-                &[p[2]],
+                &xs,
+                &ys,
+                &zs,
                 xf,
                 ShapeBulkEval::<F::FloatSliceEval>::var_value(&sv2),
             ) {
                 Err(ShapeBulkEvalError::MissingVar(m)) => m.var == want,
                 _ => false,
             };
+            let ge = &mut evs.ge;
+            let gxs: Vec<Grad> = xs.iter().map(|v| Grad::new(*v, 1.0, 0.0, 0.0)).collect();
+            let gys: Vec<Grad> = ys.iter().map(|v| Grad::new(*v, 0.0, 1.0, 0.0)).collect();
+            let gzs: Vec<Grad> = zs.iter().map(|v| Grad::new(*v, 0.0, 0.0, 1.0)).collect();
+            let dd = match ge.eval_raw(
+                &shape.ez_grad_slice_tape(),
+                &gxs,
+                &gys,
+                &gzs,
+                xf,
+                ShapeBulkEval::<F::GradSliceEval>::var_value(&sv2),
+            ) {
+                Err(ShapeBulkEvalError::MissingVar(m)) => m.var == want,
+                _ => false,
+            };
             let bound = shape.bind(&sv2).is_err();
-            (a, b, cc, bound)
+            (a, b, cc && dd, bound)
         });
         match r {
             Err(p) => rep.violate("C14", "missing_var_panic", p),
@@ -593,7 +620,7 @@ fn c14_backend<F: Function + MathFunction + Clone>(
                     rep.violate(
                         "C14",
                         "missing_var_not_reported",
-                        format!("point={a} interval={b} float_slice={cc} bind={bound} (true = reported the missing variable)"),
+                        format!("point={a} interval={b} float_and_grad_slice={cc} (batch of {nmiss}) bind={bound} (true = reported the missing variable)"),
                     );
                 }
             }
@@ -1373,6 +1400,10 @@ struct System {
     /// fewer equations than free parameters (still consistent): the solution
     /// is not unique, so only residual, key set and fixed-point are required
     under: bool,
+    /// index of the equation that pins one *large* free unknown (2^24..2^30
+    /// times a small dyadic factor, the other unknowns being of order one):
+    /// that equation and that unknown get bounds of their own
+    big_row: Option<usize>,
 }
 
 fn gen_system(ch: &mut Chooser) -> System {
@@ -1564,6 +1595,29 @@ fn gen_system(ch: &mut Chooser) -> System {
             xstar.push(xscale * if exact { 0.5 } else { ch.float_sym("unused_val", 2.0, 8) });
         }
     }
+    // one unknown on another scale than the rest (added after seeded change
+    // C19-u): a further free parameter of magnitude 2^24..2^30 with an
+    // equation of its own (`d * v = d * 2^k`, exact), everything else as it
+    // was.  The system stays as well conditioned as before (the new column is
+    // orthogonal to the others); what changes is that "the largest unknown"
+    // and "the unknown that still has to move" are no longer the same one.
+    let mut big_row = None;
+    let mut rows = rows;
+    let mut b = b;
+    if !under && ch.odds("one_large_unknown", 1, 8) {
+        let k = 24 + ch.choose("large_log2", 7) as i32;
+        let v = 2f32.powi(k) * if ch.flag("large_negative") { -1.0 } else { 1.0 };
+        let d = *ch.pick("large_coef", &[1.0f32, 2.0, 0.5]);
+        n += 1;
+        free.push(true);
+        // in the system's units: coefficients carry scale / xscale, unknowns
+        // xscale (all powers of two: exact), so that this equation's gradient
+        // is of the same size as the others'
+        xstar.push(v * xscale);
+        rows.push(vec![(n - 1, d * scale / xscale)]);
+        b.push(d * scale * v);
+        big_row = Some(rows.len() - 1);
+    }
     let split: Vec<Vec<bool>> = rows
         .iter()
         .map(|r| r.iter().map(|_| ch.odds("split_term", 1, 8)).collect())
@@ -1579,6 +1633,7 @@ fn gen_system(ch: &mut Chooser) -> System {
         scale,
         xscale,
         under,
+        big_row,
     }
 }
 
@@ -1586,7 +1641,9 @@ fn residuals(sys: &System, x: &[f64], b: &[f32]) -> f64 {
     sys.rows
         .iter()
         .zip(b)
-        .map(|(r, b)| {
+        .enumerate()
+        .filter(|(i, _)| Some(*i) != sys.big_row)
+        .map(|(_, (r, b))| {
             (r.iter().map(|(j, a)| *a as f64 * x[*j]).sum::<f64>() - *b as f64)
                 .abs()
         })
@@ -1705,6 +1762,7 @@ fn decoy_system(sys: &System) -> System {
         scale: sys.scale,
         xscale: sys.xscale,
         under: false,
+        big_row: None,
     }
 }
 
@@ -1772,7 +1830,16 @@ pub fn run_c19(st: &Shared, _tier: Tier) -> RunReport {
             }
         })
         .collect();
-    let bmax = sys.b.iter().map(|v| v.abs()).fold(0.0f32, f32::max) as f64;
+    let bmax = sys
+        .b
+        .iter()
+        .enumerate()
+        .filter(|(i, _)| Some(*i) != sys.big_row)
+        .map(|(_, v)| v.abs())
+        .fold(0.0f32, f32::max) as f64;
+    if sys.big_row.is_some() {
+        rep.count("op.one_unknown_on_a_larger_scale", 1);
+    }
     // a rank-deficient (underdetermined) system is consistent and solvable but
     // not "well-conditioned": the unchanged solver leaves residuals up to a
     // few 1e-3 there, so only a gross failure (20 times the bound) is flagged
@@ -1853,6 +1920,19 @@ pub fn run_c19(st: &Shared, _tier: Tier) -> RunReport {
                 }
             })
             .collect();
+        if let Some(br) = sys.big_row {
+            // the large unknown's own equation, relative to its own size
+            let (j, a) = sys.rows[br][0];
+            let rb = (a as f64 * x[j] - b[br] as f64).abs();
+            if !(rb <= 1e-3 * (b[br].abs() as f64)) {
+                rep.violate(
+                    "C19",
+                    format!("{what}_residual"),
+                    format!("equation of the large unknown: |residual| {rb:e} for right-hand side {:e}", b[br]),
+                );
+                return None;
+            }
+        }
         let r = residuals(&sys, &x, b);
         rep.checked_oracle += 1;
         if !(r <= tol) {
@@ -1898,8 +1978,12 @@ pub fn run_c19(st: &Shared, _tier: Tier) -> RunReport {
     if let (Some(a), Some(b)) = cmp {
         // parameters that no equation mentions are unconstrained: the solver
         // may leave them anywhere, so they are not compared
+        let big_col = sys.big_row.map(|br| sys.rows[br][0].0);
         let mentioned: Vec<bool> = (0..sys.n)
-            .map(|i| sys.rows.iter().any(|r| r.iter().any(|(j, _)| *j == i)))
+            .map(|i| {
+                Some(i) != big_col
+                    && sys.rows.iter().any(|r| r.iter().any(|(j, _)| *j == i))
+            })
             .collect();
         let d = a
             .iter()
